@@ -1,5 +1,6 @@
-\* E03 quick: N=3 tasks, one change, all forward DAGs x boundary marks {none, do, undo} per task x classic/core;
-\* one handler failure, one snapd restart without reboot, one reboot, two restart-manager calls.
+\* E03 quick: N=3 tasks, one change; chain and fork graphs x 6 boundary markings x classic/core;
+\* one handler failure (undo direction), two restart-manager calls, one snapd restart without reboot and one
+\* reboot (at points where no handler is in flight).
 SPECIFICATION MCRSpec
 CONSTANTS
   N = 3
@@ -12,8 +13,11 @@ CONSTANTS
   MaxAbort = 0
   MaxBoot = 2
   MaxCalls = 2
-  BoundaryChoices <- BoundSome
+  BoundaryChoices <- BoundQuick
   ClassicChoices <- BoolBoth
   TypeChoices <- TypesSys
+  DagChoices <- ChainFork
+  BootAnywhere = FALSE
+VIEW RView
 INVARIANTS TypeOK RTypeOK E03a E03b E03c E03d E03e
 CHECK_DEADLOCK FALSE
